@@ -1042,74 +1042,84 @@ theorem prelude_inv (E : Env) (s0 : LS) (h : prelude E {} = (s0, true)) :
           exact ⟨hi, rfl, rfl⟩
       · split at h <;> simp at h
 
-/-! ### the only panic of an iteration needs a backslash -/
+/-! ### no iteration of the main loop panics (since d839c04c) -/
 
-theorem strContent_ice (E : Env) (c : Nat) (h : (strContent E c).2 = true) : (92 : UInt8) ∈ E.text := by
-  unfold strContent at h
-  split at h
-  · simp at h
-  · next r hr =>
-    simp only at h
-    split at h
-    · simp at h
-    · next h92 =>
-      have hr92 : r = 92 := by omega
-      subst hr92
-      obtain ⟨b, rest, hb, hbv⟩ := peek_ascii hr (by decide)
-      have : b = 92 := by
-        apply UInt8.toNat_inj.mp
-        rw [hbv]; rfl
-      subst this
-      exact List.mem_of_mem_drop (by rw [hb]; simp)
+theorem strContent_noice (E : Env) (c : Nat) : (strContent E c).2 = false := by
+  unfold strContent
+  split
+  · rfl
+  · simp only
+    split
+    · rfl
+    · split
+      · rfl
+      · repeat' split
+        all_goals rfl
 
-theorem strLoop_ice (E : Env) (quote : Bytes) (f c : Nat) (h : (strLoop E quote f c).2.2 = true) :
-    (92 : UInt8) ∈ E.text := by
+theorem strLoop_noice (E : Env) (quote : Bytes) (f c : Nat) : (strLoop E quote f c).2.2 = false := by
   induction f generalizing c with
-  | zero => simp [strLoop] at h
+  | zero => simp [strLoop]
   | succ f ih =>
-    simp only [strLoop] at h
-    split at h
-    · simp at h
-    · split at h
-      · simp at h
-      · split at h
-        · next c' heq => exact strContent_ice E c (by rw [heq])
-        · next c' heq => exact ih c' h
+    simp only [strLoop]
+    split
+    · rfl
+    · split
+      · rfl
+      · split
+        · next c' heq =>
+          have := strContent_noice E c
+          rw [heq] at this; cases this
+        · next c' heq => exact ih c'
 
 theorem lexString_ice (E : Env) (s : LS) (k : Nat) (h : (lexString E s k).2 = true) :
-    E.text.drop (s.cursor + k) = [] ∨ (92 : UInt8) ∈ E.text := by
+    E.text.drop (s.cursor + k) = [] := by
   unfold lexString at h
   simp only at h
   split at h
-  · next hd => exact Or.inl hd
-  · split at h
-    · next c2 t heq => exact Or.inr (strLoop_ice E _ _ _ (by rw [heq]))
+  · next hd => exact hd
+  · next q rest1 hd =>
+    split at h
+    · next c2 t heq =>
+      have := strLoop_noice E (quoteOf q rest1) (E.n - (s.cursor + k + (quoteOf q rest1).length) + 1)
+        (s.cursor + k + (quoteOf q rest1).length)
+      rw [heq] at this; cases this
     · simp at h
 
-theorem stepPop_ice (E : Env) (s : LS) (h : (stepPop E s).2 = true) : (92 : UInt8) ∈ E.text := by
-  unfold stepPop at h
-  split at h
-  · simp at h
-  · next r hr =>
+theorem takeWhileAux_mono (E : Env) (p : Nat → Bool) (f c : Nat) : c ≤ takeWhileAux E p f c := by
+  induction f generalizing c with
+  | zero => exact Nat.le_refl _
+  | succ f ih =>
+    simp only [takeWhileAux]
+    split
+    · exact Nat.le_refl _
+    · split
+      · have := ih (c + runeLen ‹Nat›); omega
+      · exact Nat.le_refl _
+
+theorem stepPop_noice (E : Env) (s : LS) : (stepPop E s).2 = false := by
+  cases h : (stepPop E s).2 with
+  | false => rfl
+  | true =>
+    exfalso
+    unfold stepPop at h
     split at h
-    · rcases lexString_ice E s 0 h with hd | hb
-      · exfalso
+    · simp at h
+    · next r hr =>
+      split at h
+      · have hd := lexString_ice E s 0 h
         obtain ⟨hok, _⟩ := peek_some hr
         simp only [Nat.add_zero] at hd
         rw [hd] at hok; exact hok.1 rfl
-      · exact hb
-    · split at h
-      · simp at h
       · split at h
-        · -- lexIdent
-          unfold lexIdent at h
-          simp only at h
-          split at h
-          · simp at h
-          · split at h
-            · next hne hq =>
-              rcases lexString_ice E _ _ h with hd | hb
-              · exfalso
+        · simp at h
+        · split at h
+          · unfold lexIdent at h
+            simp only at h
+            split at h
+            · simp at h
+            · split at h
+              · next hne hq =>
+                have hd := lexString_ice E _ _ h
                 simp only at hd
                 have hge : s.cursor ≤ takeWhile E (E.has cXidC) s.cursor := by
                   unfold takeWhile
@@ -1122,41 +1132,31 @@ theorem stepPop_ice (E : Env) (s : LS) (h : (stepPop E s).2 = true) : (92 : UInt
                   rw [hd] at hok; exact hok.1 rfl
                 · obtain ⟨hok, _⟩ := peek_some hq
                   rw [hd] at hok; exact hok.1 rfl
-              · exact hb
-            · simp at h
-        · simp at h
-where
-  takeWhileAux_mono (E : Env) (p : Nat → Bool) (f c : Nat) : c ≤ takeWhileAux E p f c := by
-    induction f generalizing c with
-    | zero => exact Nat.le_refl _
-    | succ f ih =>
-      simp only [takeWhileAux]
-      split
-      · exact Nat.le_refl _
-      · split
-        · have := ih (c + runeLen ‹Nat›); omega
-        · exact Nat.le_refl _
+              · simp at h
+          · simp at h
 
-theorem iter_ice (E : Env) (s : LS) (h : (iter E s).2 = true) : (92 : UInt8) ∈ E.text := by
-  unfold iter at h
-  simp only at h
-  split at h
-  · simp at h
-  · exact stepPop_ice E _ h
+theorem iter_noice (E : Env) (s : LS) : (iter E s).2 = false := by
+  unfold iter
+  simp only
+  split
+  · rfl
+  · exact stepPop_noice E _
 
-theorem mainLoop_ice (E : Env) (f : Nat) (prev : Int) (s : LS)
-    (h : (mainLoop E f prev s).2 = .icePanic) : (92 : UInt8) ∈ E.text := by
+theorem mainLoop_noice (E : Env) (f : Nat) (prev : Int) (s : LS) :
+    (mainLoop E f prev s).2 ≠ .icePanic := by
   induction f generalizing prev s with
-  | zero => simp [mainLoop] at h
+  | zero => simp [mainLoop]
   | succ f ih =>
-    simp only [mainLoop] at h
-    split at h
-    · simp at h
-    · split at h
-      · simp at h
-      · split at h
-        · next s' heq => exact iter_ice E s (by rw [heq])
-        · next s' heq => exact ih _ _ h
+    simp only [mainLoop]
+    split
+    · simp
+    · split
+      · simp
+      · split
+        · next s' heq =>
+          have := iter_noice E s
+          rw [heq] at this; cases this
+        · next s' heq => exact ih _ _
 
 /-! ### after the main loop -/
 
@@ -1177,6 +1177,26 @@ theorem post_of_eof {E : Env} {s : LS} (h : InvEof E s) : Post E.n s :=
 
 theorem post_diags {n : Nat} {s : LS} (h : Post n s) (ds : List Diag) : Post n { s with diags := ds } :=
   ⟨h.nov, h.mono, h.atEnd, h.eq, wf_congr s rfl rfl h.wf⟩
+
+/-- `l.flushUnrecognized()` after the main loop: the stream now ends at `n`, nothing is pending -/
+theorem flush_post {n : Nat} {s : LS} (h : Post n s) :
+    Post n (flush n s) ∧ lastEnd (flush n s).toks = n ∧ (flush n s).bad ≤ 0 := by
+  have hwf : Wf (flush n s) := by
+    unfold flush
+    split
+    · exact wf_congr (rawPush n s s.bad.toNat kUnrecognized 0) rfl rfl (wf_rawPush n s _ _ _ h.wf)
+    · exact h.wf
+  obtain ⟨nov, mono, atEnd, eq, _⟩ := h
+  unfold flush at hwf ⊢
+  by_cases hb : s.bad > 0
+  · rw [if_pos hb] at hwf ⊢
+    rw [rawPush_ok (n := n) (s := s) (len := s.bad.toNat) (by omega)] at hwf ⊢
+    refine ⟨⟨nov, ?_, atEnd, ?_, hwf⟩, ?_, by simp⟩
+    · simp only [Mono, lastEnd_cons]; exact ⟨by omega, mono⟩
+    · simp only [lastEnd_cons]; push_cast; omega
+    · simp only [lastEnd_cons]; omega
+  · rw [if_neg hb] at hwf ⊢
+    exact ⟨⟨nov, mono, atEnd, eq, hwf⟩, by omega, by omega⟩
 
 /-- pushing an empty token in a finished state flushes the pending bytes: the stream ends at `n` -/
 theorem push0_post {n : Nat} {s : LS} (kind kw : Nat) (h : Post n s) :
@@ -1238,21 +1258,20 @@ theorem fuseBraces_post (n : Nat) (s : LS) (h : Post n s) :
 
 /-! ### the shape of a whole run -/
 
-/-- the three ways `lex` can go (for consistent class tables): the prelude refuses the file; an
-    iteration of the main loop panics; or the main loop finishes in an accounted state and the
-    brackets and strings are fused. There is no fourth way (no progress failure, no fuel exhaustion). -/
+/-- the two ways `lex` can go (for consistent class tables): the prelude refuses the file, or the
+    main loop finishes in an accounted state, the pending unrecognised bytes are flushed and the
+    brackets and strings are fused. There is no third way: no panic inside an iteration, no
+    progress failure, no fuel exhaustion. -/
 theorem lex_cases (E : Env) (hcls : ClsOK E) :
     ((prelude E {}).2 = false ∧ (lex E).status = .abort ∧ (lex E).toks = (prelude E {}).1.toks.reverse) ∨
-    (∃ s0 s1, prelude E {} = (s0, true) ∧ mainLoop E (E.n + 1) (-1) s0 = (s1, .icePanic) ∧
-      (lex E).status = .icePanic) ∨
     (∃ s0 s1, prelude E {} = (s0, true) ∧ mainLoop E (E.n + 1) (-1) s0 = (s1, .done) ∧
-      Post E.n s1 ∧ (lex E).final = s1 ∧
-      (lex E).toks.map (·.end_) = (fuseBraces E.n s1).1.toks.reverse.map (·.end_) ∧
+      Post E.n (flush E.n s1) ∧ lastEnd (flush E.n s1).toks = E.n ∧ (lex E).final = flush E.n s1 ∧
+      (lex E).toks.map (·.end_) = (fuseBraces E.n (flush E.n s1)).1.toks.reverse.map (·.end_) ∧
       ((lex E).status = .done ∨ (lex E).status = .icePanic)) := by
   cases hp : prelude E {} with
   | mk s0 b =>
     cases b with
-    | false => left; simp only [lex, hp]; exact ⟨trivial, rfl, rfl⟩
+    | false => left; simp only [lex, lexCore, hp]; exact ⟨trivial, rfl, rfl⟩
     | true =>
       right
       have hi := prelude_inv E s0 hp
@@ -1262,15 +1281,15 @@ theorem lex_cases (E : Env) (hcls : ClsOK E) :
         rw [hml] at hm
         simp only at hm
         rcases hm with ⟨hst, hcur, _, hinv⟩ | hst
-        · right
-          subst hst
-          have hpost : Post E.n s1 := by
+        · subst hst
+          have hpost0 : Post E.n s1 := by
             rcases hinv with hinv | heof
             · exact post_of_inv hinv hcur
             · exact post_of_eof heof
-          refine ⟨s0, s1, rfl, hml, hpost, ?_⟩
-          simp only [lex, hp, hml]
-          cases hfb : fuseBraces E.n s1 with
+          have hfl := flush_post hpost0
+          refine ⟨s0, s1, rfl, hml, hfl.1, hfl.2.1, ?_⟩
+          simp only [lex, lexCore, hp, hml, if_true]
+          cases hfb : fuseBraces E.n (flush E.n s1) with
           | mk s2 bracePairs =>
             simp only
             cases hf1 : fuseAll s2.toks.reverse bracePairs with
@@ -1288,10 +1307,10 @@ theorem lex_cases (E : Env) (hcls : ClsOK E) :
                 split
                 · exact ⟨rfl, hends, Or.inr rfl⟩
                 · exact ⟨rfl, hends, Or.inl rfl⟩
-        · left
-          subst hst
-          refine ⟨s0, s1, rfl, hml, ?_⟩
-          simp only [lex, hp, hml, finish]
+        · exfalso
+          have := mainLoop_noice E (E.n + 1) (-1) s0
+          rw [hml] at this
+          exact this hst
 
 /-- ASCII-only environment (built-in class table) -/
 def envA (bs : Bytes) : Env := ⟨bs, asciiCls⟩
